@@ -60,12 +60,13 @@ cons_q = [
     cons("n1_l2_lcnull", 1, (2, 1, 1), aggralg=(1, 0, 0), lcnull=((1, 0, 0), Z, Z)),
     cons("n2_l11_cal", 2, (1, 1, 1), aggralg=(0, 2, 0), cal=-20),
     cons("n2_l21_legacy", 2, (2, 1, 1), kinds=((L, I, I), Z, Z), aggralg=(1, 0, 0)),
-    cons("n2_l12_meta_cal", 2, (1, 2, 1), kinds=(Z, (M, I, I), Z), aggralg=(0, 1, 0), cal=-32, md=1),
+    cons("n1_l1_meta_cal", 1, (1, 1, 1), kinds=((M, I, I), Z, Z), aggralg=(1, 0, 0), cal=-32, md=1),
     cons("n3_l111", 3, (1, 1, 1), aggralg=(0, 1, 2)),
     cons("n2_hi", 2, (1, 1, 1), aggralg=(1, 0, 0), hi=1),
     cons("n1_unsupported", 1, (1, 1, 1), aggralg=(3, 0, 0), unsup=1),
 ]
 cons_t = cons_q + [
+    cons("n2_l12_meta_cal", 2, (1, 2, 1), kinds=(Z, (M, I, I), Z), aggralg=(0, 1, 0), cal=-32, md=1),
     cons("n3_l222_cal", 3, (2, 2, 2), aggralg=(0, 1, 0), cal=-20),
     cons("n3_l321_mixed", 3, (3, 2, 1), kinds=((L, I, M), (I, L, I), Z), aggralg=(1, 0, 2), md=1),
     cons("n2_l33", 2, (3, 3, 1), aggralg=(2, 1, 0)),
@@ -87,8 +88,8 @@ def root(label, inalg, dirs, sibs, pub):
     D = list(dirs) + [-1] * (4 - n); S = list(sibs) + [0] * (4 - n)
     return {"label": label, "defines": ["SB_HAS_CAL=1", "SB_CAL_NLINKS=%d" % n, "SB_CAL_INALG=%d" % inalg, "SB_CAL_DIRS={%d,%d,%d,%d}" % tuple(D),
             "SB_CAL_SIBALG={%d,%d,%d,%d}" % tuple(S), "SB_PUBALG=%d" % (-ALEN[cur]), "SB_HAS_PUB=%d" % pub, "SB_HAS_AUTH=%d" % (1 - pub)]}
-root_q = [root("l1_L_pub", 0, (1,), (1,), 1), root("l1_R_auth", 1, (0,), (0,), 0), root("l2_RL_pub", 0, (0, 1), (1, 2), 1), root("l3_LRL_auth", 1, (1, 0, 1), (0, 1, 1), 0)]
-root_t = root_q + [root("l4_RLLR_pub", 0, (0, 1, 1, 0), (1, 1, 0, 1), 1), root("l4_LLRL_auth", 2, (1, 1, 0, 1), (1, 0, 1, 2), 0)]
+root_q = [root("l1_L_pub", 0, (1,), (1,), 1), root("l1_R_auth", 1, (0,), (0,), 0), root("l2_RL_pub", 0, (0, 1), (1, 2), 1), root("l2_LR_auth", 1, (1, 0), (0, 1), 0)]
+root_t = root_q + [root("l3_LRL_auth", 1, (1, 0, 1), (0, 1, 1), 0), root("l4_RLLR_pub", 0, (0, 1, 1, 0), (1, 1, 0, 1), 1), root("l4_LLRL_auth", 2, (1, 1, 0, 1), (1, 0, 1, 2), 0)]
 
 # ---------------------------------------------------------------- ha_rfc
 def life(label): return {"label": label, "defines": ["MODE=0", "SB_HAS_RFC=1", "SB_RFC_ALGS={-1,-1}", "SB_INALG={-20,-20,-20}"]}
@@ -135,7 +136,7 @@ plan = {
   "level_note": "Trusted base / outside the claim: the composition of (1) and (2) is a hand argument (rules communicate only through tempData.aggregationOutputHash and the per-chain / calendar output-hash memo; the hand-over is checked in ha_consistency, no end-to-end run of real rules under the real engine is made); Rule_verify's bookkeeping list is switched off in hb_policy (its return value is ignored by Rule_verify); hash model instead of real digests; typed objects instead of parsed bytes (C10); quick shapes are a sample of the thorough ones. Time domain: all claims hold for all 64-bit values except that INT-05 verdicts are claimed for publication times < 2^63 (beyond: only 'never wrongly OK') and the lifetime verdicts (INT-13..15,17) for times >= 2^63 are claimed in ha_chains.n1_t63 only, where they are violated (KNOWN FINDING F-C01-2, hash.c:127). INT-13 is evaluated at KSI_Signature_getSigningTime (policy.h 'time of signing'). Metadata: element tags and header forms are concrete per instance (10 layouts), flags and values symbolic. See FINDINGS.md, MUTATIONS.md."
  },
  "harnesses": [
-  {"name": "hc_e2e", "src": "hc_e2e.c", "env": ENV, "global_defines": ["HM_LOG_MAX=72", "HM_REC_MAX=4"], "tus": TUS + ["publicationsfile"], "unwind": 14, "unwindset": ["Rule_verify.0:14"], "timeout": 600, "object_bits": 12,
+  {"name": "hc_e2e", "src": "hc_e2e.c", "env": ENV, "global_defines": ["HM_LOG_MAX=72", "HM_REC_MAX=4"], "tus": TUS + ["publicationsfile", "tlv_element", "fast_tlv"], "unwind": 14, "unwindset": ["Rule_verify.0:14"], "timeout": 600, "object_bits": 12,
    "defines": ["SB_NCHAINS=1", "SB_NLINKS={1,1,1}", "SB_IDXLEN={1,1,1}", "SB_INALG={-20,-20,-20}", "SB_AGGRALG={0,0,0}", "SB_HAS_CAL=1", "SB_CAL_NLINKS=1", "SB_CAL_DIRS={0,-1,-1,-1}", "SB_CAL_INALG=0",
                "SB_CAL_SIBALG={-20,0,0,0}", "SB_HAS_PUB=1", "SB_PUBALG=-20", "SB_HAS_DOC=1", "SB_DOCALG=-20"],
    "restrict_fp": ["Rule_verify.function_pointer_call.1/" + ",".join("KSI_VerificationRule_" + r for r in INTERNAL_RULES)] + HASHER_FP,
